@@ -115,6 +115,10 @@ Proof. exact generated_plain_misc. Qed.
 Theorem c10_dispatch_trait_impls_unchanged : dispatch_impls_hold dispatch_impls = true.
 Proof. exact generated_dispatch_impls. Qed.
 
+(* the cargo features are independent switches with nothing on by default: a feature set of the model means exactly its cfgs *)
+Theorem c10_feature_table_unchanged : features_hold cargo_features = true.
+Proof. exact generated_features. Qed.
+
 Eval vm_compute in "ASSUMPTIONS c10_ctap2". Print Assumptions c10_ctap2.
 Eval vm_compute in "ASSUMPTIONS c10_ctap1". Print Assumptions c10_ctap1.
 Eval vm_compute in "ASSUMPTIONS c10_exactly_one_call". Print Assumptions c10_exactly_one_call.
@@ -129,3 +133,4 @@ Eval vm_compute in "ASSUMPTIONS c10_plain_structures_unchanged_u2f_requests". Pr
 Eval vm_compute in "ASSUMPTIONS c10_plain_structures_unchanged_u2f_responses". Print Assumptions c10_plain_structures_unchanged_u2f_responses.
 Eval vm_compute in "ASSUMPTIONS c10_plain_structures_unchanged_misc". Print Assumptions c10_plain_structures_unchanged_misc.
 Eval vm_compute in "ASSUMPTIONS c10_dispatch_trait_impls_unchanged". Print Assumptions c10_dispatch_trait_impls_unchanged.
+Eval vm_compute in "ASSUMPTIONS c10_feature_table_unchanged". Print Assumptions c10_feature_table_unchanged.
